@@ -7,9 +7,11 @@ patch="$1"; p="$2"; run="${3:-.}"
 R=${EVALREPO:-/tmp/evalrepo}; G=${GOSYM:-/tmp/gosym_eval}; tag=$(basename $R)
 [ -d $R ] || git -C /repo worktree add -q --detach $R HEAD
 cd $R || exit 2
-git checkout -q -- . ; git clean -fdq
+git reset -q --hard ; git clean -fdq
 git checkout -q --detach $(git -C /repo rev-parse HEAD)
-git apply "$patch" || { echo "patch does not apply"; exit 2; }
+# -3: fall back to a three-way merge when /repo has moved on since the patch was made
+git apply -3 "$patch" 2>/dev/null || { echo "patch does not apply"; git reset -q --hard; exit 2; }
+go build ./... || { echo "patched tree does not build"; git reset -q --hard; exit 2; }
 s=$(date +%s)
 GOSYM_REPLAYDIR=/tmp/evalreplay_$tag timeout 3000 $G -repo $R -prop $p -run "$run" -tier ${TIER:-quick} -evidence /tmp/evalev_${tag}_$p.json > /tmp/mutant2_${tag}_$p.log 2>&1
 rc=$?
@@ -17,4 +19,4 @@ e=$(date +%s)
 echo "$p exit=$rc $((e-s))s viol=$(grep -c '^VIOLATION' /tmp/mutant2_${tag}_$p.log) inconcl=$(grep -c '^INCONCLUSIVE' /tmp/mutant2_${tag}_$p.log)"
 grep -m3 'violation:' /tmp/mutant2_${tag}_$p.log | cut -c1-260
 grep -m2 'INCONCLUSIVE' /tmp/mutant2_${tag}_$p.log | cut -c1-260
-git checkout -q -- .
+git reset -q --hard
